@@ -101,6 +101,8 @@ def oracle(top, res, dist):
         note_failure(f'construction-draws/{root}', top, f'{expr}: {what}', 'no draw at construction (one for the child of a StaticGenerator)', what)
     for key, what in res.get('interference', []):
         note_failure(key, top, f'{expr}: {what}', 'unchanged', 'changed')
+    for key, what in res.get('operand_reuse', []):
+        note_failure(key, top, f'{expr}: {what}', 'operands unchanged by the construction of the composite', 'operand changed')
     for k, o in enumerate(res['outs']):
         tags = set()
         try:
